@@ -698,7 +698,9 @@ func (u *Unit) contractCall(f *Frame, st *State, con *Contract, callee *ssa.Func
 		u.assume(st, penv.boolExpr(d.Expr))
 		u.extDefault("result of " + cname + " named by an uninterpreted function (deterministic in its arguments): " + d.Text)
 	}
-	if vacuityCalls && !f.pure && len(con.Ensures) > 0 {
+	if vacuityCalls && !f.pure && len(con.Ensures) > 0 && !u.ctx.isGhostFile(u.fn) {
+		// (not in ghost lemma bodies: there a call whose postcondition contradicts the branch
+		// condition is a proof by contradiction, and the unreachable continuation is intended)
 		// the assumed postcondition must not make the continuation unreachable
 		u.vacN++
 		u.em.obls = append(u.em.obls, &Obligation{Name: fmt.Sprintf("%s#vacuity#after-call%d:%s", u.unitName(), u.vacN, short), Kind: "vacuity", At: len(u.em.lines), PC: st.pc, Goal: "false", Func: u.unitName(), Unit: u})
